@@ -36,6 +36,7 @@ def check(rep: Report, ctx: Ctx) -> None:
     r144(rep, ctx)
     r145(rep, ctx)
     r146(rep, ctx)
+    r147(rep, ctx)
 
 
 def r141(rep: Report, ctx: Ctx) -> None:
@@ -641,3 +642,46 @@ def r146(rep: Report, ctx: Ctx) -> None:
                    "folders or nothing at all") if hits else
            f"{n_listings} directory listing(s), none pattern-based on a "
            "path argument")
+
+
+def r147(rep: Report, ctx: Ctx) -> None:
+    """The file route must hand the learner the events the files hold: a
+    loader that post-processes what the record transformation returned
+    (drops links to events listed later, reorders, de-duplicates) makes
+    pv2puml see another job than otel2puml saw in memory."""
+    from .effspec import effects, expect
+    rep.rule("R14.7", "a loaded event is the transformed record itself: the "
+             "loaders add, drop and rewrite nothing", 5)
+    MUT = {"update", "pop", "setdefault", "clear", "popitem", "remove",
+           "sort", "reverse", "insert", "extend", "append"}
+
+    def untouched(fi, effs, T: str) -> None:
+        bad = [e for e in effs
+               if (e.kind == "store" and e.recv.startswith(T + "["))
+               or (e.kind == "call" and e.name in MUT and (
+                   e.recv == T or e.recv.startswith(T + "[")))]
+        rep.ob("R14.7", f"{fi.name}: no field of a transformed record is "
+               "rewritten", not bad, fi=fi,
+               node=bad[0].node if bad else fi.node,
+               detail="; ".join(e.show() for e in bad)[:300] or
+               "no store into / mutator call on the transformed record")
+    seq = ctx.func("pv_job_file_to_event_sequence")
+    effs = effects(ctx, seq)
+    src = "json.load(with(open(P:file_path,'r',encoding='utf-8')))"
+    T = f"transform_dict_into_pv_event(each({src}),P:mapping_config)"
+    ls = ("truth", f"isinstance({src},list)", "1")
+    dc = ("truth", f"isinstance(each({src}),dict)", "1")
+    expect(rep, "R14.7", seq, effs, "every record of a job file is loaded, "
+           "in file order, as transformed", name="append", recv="[]",
+           args=(T,), may=[ls, dc])
+    untouched(seq, effs, T)
+    expect(rep, "R14.7", seq, effs, "the sequence returned is the one the "
+           "records were appended to", kind="ret", name="", args=("[]",),
+           may=[ls])
+    one = ctx.func("pv_event_file_to_event")
+    effs = effects(ctx, one)
+    T1 = f"transform_dict_into_pv_event({src},P:mapping_config)"
+    expect(rep, "R14.7", one, effs, "a single-event file is loaded as "
+           "transformed", kind="ret", name="", args=(T1,),
+           may=[("truth", f"isinstance({src},dict)", "1")])
+    untouched(one, effs, T1)
